@@ -7,7 +7,7 @@
                        are within the range of the DSDL element type.
    db_wok db : what pydsdl guarantees of every type database (a union has options, signed widths <= 64). *)
 From Coq Require Import List NArith ZArith Bool.
-From Verif Require Import PyObj Gen_PyObj Gen_Pin_c18support PyObjThm PyObjThmRt PyObjThmRt2 PyObjThmWrap PyObjThmStart PyObjThmMut PyObjThmRound PyObjThmRepr PyObjThmRun PyObjLaws PyModelAttr PyObjThmReject PyAlias Gen_PyAlias PyAliasThm
+From Verif Require Import PyObj Gen_PyObj Gen_Pin_c18support PyObjThm PyObjThmRt PyObjThmRt2 PyObjThmWrap PyObjThmStart PyObjThmMut PyObjThmRound PyObjThmRepr PyObjThmRun PyObjLaws PyModelAttr PyObjThmReject PyObjThmLegal PyAlias Gen_PyAlias PyAliasThm PyAliasId
   Gen_Pin_c18model.
 Import ListNotations.
 Open Scope Z_scope.
@@ -185,12 +185,53 @@ Theorem C18_float_list_reject : forall fixed cap sl w bs, w < 64 ->
 Proof. exact float_list_reject. Qed.
 Print Assumptions C18_float_list_reject.
 
-(* the reject characterisation above is about the code in /repo *)
-Theorem C18_TGf_is_tmpl_gen : TGf = tmpl_gen.
+(* OPEN FINDINGS on the tree (third audit): F-PY-NPSCALAR (regression of 4403124), F-PY-EXCCLASS, F-PY-ALIASCLASH.  Their fixes are in
+   design_notes/C18_npscalar_fix.patch (first two facts) and design_notes/C18_alias_clash_fix.patch (third).  WHEN THEY LAND flip the
+   corresponding `false` to `true` (the example fails until flipped); C18_npscalar_wrap_refuted then belongs to History only. *)
+Example C18_open_findings_round9 :
+  t_src_exact tmpl_gen = false /\ exc_overflow_wrapped_gen = false /\ alias_guard_gen = false.
+Proof. repeat split; reflexivity. Qed.
+
+(* the reject / legality theorems below are about TGf = the scanned template with ALL source-check facts of the fixes; it is tmpl_gen as
+   soon as the NPSCALAR fix is in the tree *)
+Theorem C18_TGf_is_tmpl_gen : t_src_exact tmpl_gen = true -> TGf = tmpl_gen.
 Proof.
-  destruct C18_fix_flags_live as (_ & P & _). destruct C18_open_findings_state as (G & N).
-  rewrite tmpl_live3 at 2. rewrite P, G, N. reflexivity.
+  intro X. destruct C18_fix_flags_live as (_ & P & _). destruct C18_open_findings_state as (G & N).
+  rewrite tmpl_live3 at 2. rewrite P, G, N, X. reflexivity.
 Qed.
+
+(* LEGALITY, written independently of the template (PyObjThmLegal.legal_int_array: every leaf of the (nested, rectangular) value -- Python
+   int / float / bool, NumPy scalar, element of a nested or foreign-dtype ndarray -- is, as an exact number, an INTEGER within the field's
+   range, and the number of leaves fits): for integer arrays and numeric sources on the conversion path, accepted <-> legal, and what is
+   stored are exactly the input integers (no wrap-around, no truncation).  Deviations are named: text elements INSIDE a list are still
+   parsed by NumPy (PyObjThmLegal.text_leaf_parsed), other non-numeric elements raise (nonnumeric_leaf_raises). *)
+Theorem C18_legal_iff_accepted : forall k w, (k = KU w \/ k = KS w) -> 1 <= w <= 64 -> forall fixed cap y,
+  conv_path (EPrim k) y = true -> all_numeric y = true ->
+  ((exists v, assign_array TGf pick_width_gen false fixed cap false (EPrim k) y = Ok v) <-> legal_int_array fixed cap k y = true).
+Proof. exact legal_iff_accepted. Qed.
+Print Assumptions C18_legal_iff_accepted.
+
+Theorem C18_legal_accepted : forall k w, (k = KU w \/ k = KS w) -> 1 <= w <= 64 -> forall fixed cap y,
+  conv_path (EPrim k) y = true -> legal_int_array fixed cap k y = true ->
+  assign_array TGf pick_width_gen false fixed cap false (EPrim k) y
+  = Ok (PArr (dtype_of pick_width_gen (EPrim k)) (map PInt (leaf_ints y))).
+Proof. exact legal_accepted. Qed.
+Print Assumptions C18_legal_accepted.
+
+Theorem C18_illegal_rejected : forall k w, (k = KU w \/ k = KS w) -> 1 <= w <= 64 -> forall fixed cap y,
+  conv_path (EPrim k) y = true -> all_numeric y = true -> legal_int_array fixed cap k y = false ->
+  exists ex, assign_array TGf pick_width_gen false fixed cap false (EPrim k) y = Raise ex.
+Proof. exact illegal_rejected. Qed.
+Print Assumptions C18_illegal_rejected.
+
+(* F-PY-NPSCALAR on the tree as it is (t_src_exact absent): [np.float64(300.0)] and [np.array([300., 1.])] into uint8[<=4] are C-cast *)
+Theorem C18_npscalar_wrap_refuted : forall q,
+  assign_array (set_src_exact false TGf) pick_width_gen q false 4 false (EPrim (KU 8)) (PList [PArr (DF 64) [PFloat 4643985272004935680]])
+  = Ok (PArr (DU 8) [PInt 44])
+  /\ assign_array (set_src_exact false TGf) pick_width_gen q false 4 false (EPrim (KU 8))
+       (PList [PArr (DF 64) [PFloat 4643985272004935680; PFloat 4607182418800017408]]) = Ok (PArr (DU 8) [PInt 44; PInt 1]).
+Proof. intro q. exact (conj (npscalar_wrap_refuted q) (nested_ndarray_wrap_refuted q)). Qed.
+Print Assumptions C18_npscalar_wrap_refuted.
 
 Theorem C18_tmpl_live3 : tmpl_gen = set_text_guard (t_text_guard tmpl_gen) (set_nd_only (t_precheck_nd_only tmpl_gen) (set_precheck (t_arr_precheck tmpl_gen) tmpl_gen)).
 Proof. exact tmpl_live3. Qed.
@@ -350,6 +391,17 @@ Print Assumptions C18_alias_is_newest_minor.
 Theorem C18_alias_exists : forall tys t, In t tys -> exists t', In (v_name t, v_major t, t') (aliases_gen tys).
 Proof. exact alias_exists. Qed.
 Print Assumptions C18_alias_exists.
+
+(* identifiers as text: with the guard of the F-PY-ALIASCLASH fix (alias_guard_gen) no alias identifier `<name>_<major>` equals the
+   identifier `<name>_<major>_<minor>` of a class of the namespace; without it `Foo` 1.0 beside `Foo_1` 0.1 clash on "Foo_1_0" *)
+Theorem C18_alias_never_shadows_class : forall tys a, In a (aliases_guarded tys) ->
+  forall t, In t tys -> alias_id (fst a) (snd a) <> class_id (s_name t) (s_major t) (s_minor t).
+Proof. exact alias_never_shadows_class. Qed.
+Print Assumptions C18_alias_never_shadows_class.
+
+Example C18_alias_clash_witness :
+  In (Foo_1, 0%nat) (aliases_s clash_ns) /\ alias_id Foo_1 0 = class_id Foo 1 0 /\ aliases_guarded clash_ns = [(Foo, 1%nat)].
+Proof. destruct alias_clash_witness as (A & B & _ & D). exact (conj A (conj B D)). Qed.
 
 Example C18_alias_minor_ten : forall t,
   In (0%nat, 1%nat, t) (aliases_gen [ {| v_name := 0; v_major := 1; v_minor := 9; v_id := 0 |}; {| v_name := 0; v_major := 1; v_minor := 10; v_id := 1 |};
